@@ -118,7 +118,7 @@ impl Engine for OwnEngine {
             check_ledger(&wx, rec, line);
             // the model's ghost ledger (created / gone, tracked types) against the real one, after every operation
             if w[0] != "ledger" && !wx.unspecified { let lo = wx.op("ledger"); rec.op("ledger".to_string(), lo); }
-            if wx.unspecified { rec.stat("truncated/new-asset-loaded-during-a-pass"); break; }
+            if wx.unspecified { rec.stat(format!("truncated/{}", wx.unspecified_why)); break; }
         }
         // the cache is dropped: everything that is still stored is dropped, exactly once
         drop(wx);
